@@ -44,6 +44,7 @@ fn main() {
             "replay" => replay(&rest),
             "random" => random(&rest),
             "judge" => judge(&rest),
+            "observe" => observe(&rest),
             "e2e" => e2e::run(&rest),
             "one" => one(),
             other => {
@@ -187,19 +188,41 @@ fn replay(args: &[String]) -> i32 {
     0
 }
 
+/// One record of the implementation -> spec direction.
+fn observation(id: usize, tb: &Table, line: &[String]) -> Value {
+    let text = render_line(line);
+    let obs = parse::parse_with(&text, Some(tb));
+    let words: Vec<Value> = obs.words.iter().map(|(t, o)| json!({"t": unrender_tok(t), "o": o})).collect();
+    json!({"id": id, "tb": table_json(tb), "line": line, "st": obs.status,
+        "wordsok": obs.status == "ok" && !obs.unsupported,
+        "words": words, "printed": obs.printed, "err": obs.err, "lookups": obs.lookups})
+}
+
 fn random(args: &[String]) -> i32 {
     let n = opt_usize(args, "--n", 1000);
     let mut out = open_out(args);
     let mut g = model::Gen::new(yvcommon::util::seed() ^ 0xc17);
     for id in 1..=n {
         let (tb, line) = g.case();
-        let text = render_line(&line);
-        let obs = parse::parse_with(&text, Some(&tb));
-        let words: Vec<Value> = obs.words.iter().map(|(t, o)| json!({"t": unrender_tok(t), "o": o})).collect();
-        let rec = json!({"id": id, "tb": table_json(&tb), "line": line, "st": obs.status,
-            "wordsok": obs.status == "ok" && !obs.unsupported,
-            "words": words, "printed": obs.printed, "err": obs.err, "lookups": obs.lookups});
-        writeln!(out, "{rec}").unwrap();
+        writeln!(out, "{}", observation(id, &tb, &line)).unwrap();
+    }
+    out.flush().unwrap();
+    0
+}
+
+/// Like `random`, for given {tb, line} lines (used by --replay).
+fn observe(args: &[String]) -> i32 {
+    let input = open_in(args);
+    let mut out = open_out(args);
+    let mut id = 0;
+    for l in input.lines() {
+        let l = l.expect("read");
+        if l.trim().is_empty() {
+            continue;
+        }
+        let v: Value = serde_json::from_str(&l).expect("json");
+        id += 1;
+        writeln!(out, "{}", observation(id, &table_from_json(&v["tb"]), &strs(&v["line"]))).unwrap();
     }
     out.flush().unwrap();
     0
